@@ -10,9 +10,11 @@ import (
 	"bytes"
 	"context"
 	"log/slog"
+	"regexp"
 	"strconv"
 	"sync"
 	"sync/atomic"
+	"syscall"
 	"time"
 
 	"rivaas.dev/logging"
@@ -32,6 +34,9 @@ type scaseT struct {
 	// are logging, they go on a little longer, are parked (every call has returned), Flush writes out what
 	// was added after Close — and the per-goroutine order of the whole output is judged as always
 	CloseRace bool `json:",omitempty"`
+	// Flaky: console handler, and the output now and then takes all of a line but its last byte and reports a temporary
+	// error (EAGAIN: a terminal / pipe with a write deadline). The record has reached the output — it must not come again.
+	Flaky bool `json:",omitempty"`
 	// Volume > 0: no concurrency at all — StartBuffering, Volume records from one goroutine, FlushBuffer
 	// (a start-up that logs a lot before the banner)
 	Volume int  `json:",omitempty"`
@@ -49,6 +54,23 @@ type lockedBuf struct {
 func (w *lockedBuf) Write(p []byte) (int, error) {
 	w.mu.Lock()
 	defer w.mu.Unlock()
+	return w.b.Write(p)
+}
+
+// flakyBuf: every `every`-th write takes everything but the last byte and fails with EAGAIN
+type flakyBuf struct {
+	lockedBuf
+	n, every int
+}
+
+func (w *flakyBuf) Write(p []byte) (int, error) {
+	w.mu.Lock()
+	defer w.mu.Unlock()
+	w.n++
+	if w.every > 0 && w.n%w.every == 0 && len(p) > 1 {
+		w.b.Write(p[:len(p)-1])
+		return len(p) - 1, syscall.EAGAIN
+	}
 	return w.b.Write(p)
 }
 
@@ -98,6 +120,9 @@ func runsOf(seqs []int) []runT {
 
 func runStress(k scaseT) (logged []int, runs [][]runT, cycles int) {
 	r := hx.NewRand(k.Seed)
+	if k.Flaky {
+		return runFlaky(k, r)
+	}
 	out := &lockedBuf{}
 	lopts := []logging.Option{logging.WithJSONHandler(), logging.WithOutput(out)}
 	if k.Source {
@@ -202,6 +227,64 @@ func runStress(k scaseT) (logged []int, runs [][]runT, cycles int) {
 	}
 	return logged, runs, cycles
 }
+
+// runFlaky: see scaseT.Flaky. The goroutines log through the console handler (Logger.Warn or a With logger) while the
+// main goroutine cycles StartBuffering / FlushBuffer; the messages are "<g>:<seq>:<d>" — with G ≥ 2 no time stamp field
+// can be mistaken for one (hours:minutes:seconds never ends in ":0" or ":1" followed by a letter… and g ≥ 24 never occurs)
+func runFlaky(k scaseT, r *hx.Rand) (logged []int, runs [][]runT, cycles int) {
+	out := &flakyBuf{every: 7 + r.Intn(30)}
+	l, err := logging.New(logging.WithConsoleHandler(), logging.WithOutput(out))
+	if err != nil {
+		panic(err)
+	}
+	var stop atomic.Bool
+	counts := make([]atomic.Int64, k.G)
+	var wg sync.WaitGroup
+	for g := 0; g < k.G; g++ {
+		wg.Add(1)
+		go func(g int) {
+			defer wg.Done()
+			c := &logT{Lvl: 2}
+			for n := 0; !stop.Load() && n < 200000; n++ {
+				c.Seq = n
+				l.Warn("m" + msgOf(g+100, c) + "m")
+				counts[g].Store(int64(n + 1))
+				spinFor(3 * time.Microsecond)
+			}
+		}(g)
+	}
+	deadline := time.Now().Add(time.Duration(k.Millis) * time.Millisecond)
+	for time.Now().Before(deadline) {
+		cycles++
+		l.StartBuffering()
+		spinFor(time.Duration(r.Intn(40)) * time.Microsecond)
+		_ = l.FlushBuffer()
+		spinFor(time.Duration(r.Intn(200)) * time.Microsecond)
+	}
+	stop.Store(true)
+	wg.Wait()
+	_ = l.FlushBuffer()
+	_ = l.Shutdown(context.Background())
+	out.mu.Lock()
+	data := append([]byte(nil), out.b.Bytes()...)
+	out.mu.Unlock()
+	per := make([][]int, k.G)
+	for _, m := range flakyMsg.FindAllSubmatch(data, -1) {
+		w, _ := strconv.Atoi(string(m[1]))
+		seq, _ := strconv.Atoi(string(m[2]))
+		if w-100 >= 0 && w-100 < k.G {
+			per[w-100] = append(per[w-100], seq)
+		}
+	}
+	for g := 0; g < k.G; g++ {
+		logged = append(logged, int(counts[g].Load()))
+		runs = append(runs, runsOf(per[g]))
+	}
+	return logged, runs, cycles
+}
+
+// "m<g+100>:<seq>:<d>m": cannot be confused with the time stamp of the console line
+var flakyMsg = regexp.MustCompile(`m(\d+):(\d+):[01]m`)
 
 func spinFor(d time.Duration) {
 	for t0 := time.Now(); time.Since(t0) < d; {
@@ -311,6 +394,9 @@ func emitStress(id string, k scaseT, st *hx.Stats) string {
 		}
 		if k.Volume > 0 {
 			st.Count("stress_volume")
+		}
+		if k.Flaky {
+			st.Count("stress_console_flaky_output")
 		}
 	}
 	return l.String() + hx.Comment(caseT{Z: &k})
